@@ -698,6 +698,9 @@ class RecurrencePlot(Cached):
 
         _set_adaptive_neighborhood_size(n_time, adaptive_neighborhood_size,
                                         sorted_neighbors, order, recurrence)
+        if self.missing_values:
+            recurrence[self.missing_value_indices, :] = 0
+            recurrence[:, self.missing_value_indices] = 0
         self.R = recurrence
 
     @staticmethod
